@@ -2,6 +2,8 @@
 with the Lean model RigModel/Model/C12.lean (exact list equality, tree state and
 `add_core` return values included), and the Lean specification of a region word
 (`selects`) run as oracle on the implementation's own output."""
+import json
+import os
 import random
 
 CLAIM = dict(
@@ -367,12 +369,18 @@ def run(ctx):
         "semantics of a region word as documented in regions.py / _send_ffcs (written independently in Lean as `selects`); "
         "that SC&MP implements this semantics is trusted",
         "the insertion order used by the implementation is the iteration order of the targets dict and its sets"]
-    n = ctx.scale(1500, 40000)
+    n = ctx.scale(1500, 24000)
     nreg = ctx.scale(3000, 0)
     if ctx.extended:
         n *= 4
     rng = ctx.rng
     cases = []
+    cdir = os.path.join(os.path.dirname(os.path.dirname(os.path.abspath(__file__))), "corpus", "C12")
+    if os.path.isdir(cdir):
+        for fn in sorted(os.listdir(cdir)):
+            if fn.endswith(".json"):
+                cases.append(json.load(open(os.path.join(cdir, fn)))["case"])
+                ctx.tag("corpus")
     for i in range(n):
         if rng.random() < 0.06:
             cases.append(gen_malformed(rng))
